@@ -524,7 +524,8 @@ pub fn outputs_close(a: &str, b: &str, ulps: u64) -> bool {
                     return true;
                 }
                 if p.is_sign_negative() != q.is_sign_negative() || !p.is_finite() || !q.is_finite() {
-                    return p == q;
+                    // the sign of a zero is part of the result: 0 and -0 are different outputs
+                    return p == q && p.is_sign_negative() == q.is_sign_negative();
                 }
                 let d = (p.to_bits() as i128 - q.to_bits() as i128).unsigned_abs();
                 d <= ulps as u128
